@@ -1,6 +1,7 @@
 // fam_uf: correspondence harness for protocol/thrift/unknownfields (C13, C03).
 //
 //	uf convert <hex>   ConvertUnknownFields                       => ok <tree> | err <class> | PANIC <class>
+//	uf get <kind> <hex> GetUnknownFields(v), v built per kind      => like uf convert | err notstruct|nofield | PANIC reflect
 //	uf rt <hex>        Convert, UnknownFieldsLength, Write        => ok <hex written> <length>
 //	uf write <tree>    WriteUnknownFields                         => ok <hex> <length|->
 //	uf len <tree>      UnknownFieldsLength                        => ok <n> <bytes written|->
@@ -33,6 +34,10 @@ func errClass(err error) string {
 	switch {
 	case m == "_unknownFields is empty":
 		return "empty"
+	case strings.HasSuffix(m, "is not a struct type"): // GetUnknownFields
+		return "notstruct"
+	case strings.Contains(m, "has no field named '_unknownFields'"):
+		return "nofield"
 	case strings.HasSuffix(m, "depth limit exceeded"):
 		return "depth"
 	case strings.HasSuffix(m, "negative size"):
@@ -72,6 +77,55 @@ func runConvert(b []byte) string {
 
 // uf rt: a panic inside ConvertUnknownFields is "PANIC <class>" (C03); a panic of Length / Write on the tree it
 // returned (Write gets a buffer of exactly the advertised length) is "WPANIC <class>" (C13).
+// arguments of GetUnknownFields (the reflect wrapper around ConvertUnknownFields)
+type withField struct {
+	A              int32
+	_unknownFields []byte
+}
+type withoutField struct{ A int32 }
+type wrongField struct{ _unknownFields string }
+
+var getKinds = []string{"ptr", "val", "nilptr", "nil", "int", "nofield", "nofieldptr", "wrongtype"}
+
+// uf get <kind> <hex> => like uf convert; notstruct / nofield errors; a `_unknownFields` of another type makes
+// reflect panic ("PANIC reflect")
+func runGet(kind string, b []byte) string {
+	var v interface{}
+	switch kind {
+	case "ptr":
+		v = &withField{A: 1, _unknownFields: b}
+	case "val":
+		v = withField{A: 2, _unknownFields: b}
+	case "nilptr":
+		v = (*withField)(nil)
+	case "nil":
+		v = nil
+	case "int":
+		v = len(b)
+	case "nofield":
+		v = withoutField{3}
+	case "nofieldptr":
+		v = &withoutField{4}
+	case "wrongtype":
+		v = wrongField{string(b)}
+	default:
+		return ""
+	}
+	res := guard(func() string {
+		fs, err := uf.GetUnknownFields(v)
+		if err != nil {
+			return "err " + errClass(err)
+		}
+		return "ok " + lib.UfShow(fs)
+	})
+	if strings.HasPrefix(res, "PANIC other:reflect") {
+		return "PANIC reflect"
+	}
+	return res
+}
+
+var getCount int
+
 func runRt(b []byte) string {
 	var fs []uf.UnknownField
 	res := guard(func() string {
@@ -221,6 +275,15 @@ func emitBytes(class string, b []byte, trees bool) {
 	em.Count("convert:" + firstTok(res))
 	em.Line(res, "uf", "convert", hx)
 	em.Line(runRt(b), "uf", "rt", hx)
+	// the reflect wrapper on the same bytes: pointer / value alternately, the misuse kinds now and then
+	getCount++
+	kind := getKinds[getCount%2]
+	if getCount%37 == 0 {
+		kind = getKinds[2+(getCount/37)%(len(getKinds)-2)]
+	}
+	gres := runGet(kind, b)
+	em.Count("get:" + kind + ":" + firstTok(gres))
+	em.Line(gres, "uf", "get", kind, hx)
 	if trees && strings.HasPrefix(res, "ok ") {
 		emitTree("converted", res[3:])
 	}
@@ -632,6 +695,16 @@ func depthClass(lv int) int {
 
 func replay(lines [][]string) {
 	for _, f := range lines {
+		if len(f) == 4 && f[0] == "uf" && f[1] == "get" {
+			b := lib.UnHex(f[3])
+			if mx, sum := lib.UfMaxDeclared(b); mx > maxDeclared || sum > maxDeclaredSum {
+				continue
+			}
+			if res := runGet(f[2], b); res != "" {
+				em.Line(res, f...)
+			}
+			continue
+		}
 		if len(f) != 3 || f[0] != "uf" {
 			continue
 		}
